@@ -83,6 +83,9 @@ type (
 		backoff         *backoff
 		skipReconnect   bool
 		skipReconnectMu sync.RWMutex
+		// True for as long as a reconnection loop (`reconnect` with its attempts) is running.
+		reconnectLoop   bool
+		reconnectLoopMu sync.RWMutex
 
 		openHandlers             *handlerStore[*ManagerOpenFunc]
 		pingHandlers             *handlerStore[*ManagerPingFunc]
